@@ -184,5 +184,6 @@ def check(tier):
     ]
     for name, m in mut:
         ck.add_mutant(name, m, "ivp", "harness.C04", "ivp_job", dict(cases=[("massaction", 3, True)]), fresh=True)
+    ck.validate = ['derivative', 'dispatch']
     ck.run()
     return ck.finish(replay=REPLAY)
